@@ -65,10 +65,12 @@ func c02R1(c *Ctx, r *Report) {
 		var p, bu *ssa.Phi
 		for _, in := range b.Instrs {
 			if phi, ok := in.(*ssa.Phi); ok {
-				if phi.Comment == "ptr" {
+				// recognised by what they are, not by their names: the hop counter starts at 0 and is incremented on a
+				// way round; the octet budget starts at the 255-octet limit
+				if isHopCounter(phi) {
 					p = phi
 				}
-				if phi.Comment == "budget" {
+				if isOctetBudget(phi) {
 					bu = phi
 				}
 			}
@@ -565,4 +567,32 @@ func decodeScope(c *Ctx) []*ssa.Function {
 	}
 	sort.Slice(fns, func(i, j int) bool { return fnDisplay(fns[i]) < fnDisplay(fns[j]) })
 	return fns
+}
+
+// isHopCounter: an int phi that starts at constant 0 and receives itself plus a positive constant on some way round.
+func isHopCounter(phi *ssa.Phi) bool {
+	zero, inc := false, false
+	for _, e := range phi.Edges {
+		if k, ok := constIntOf(e); ok && k == 0 {
+			zero = true
+		}
+		for _, l := range phiLeaves(e) {
+			if b, ok := l.(*ssa.BinOp); ok && b.Op == token.ADD && b.X == ssa.Value(phi) {
+				if k, isK := constIntOf(b.Y); isK && k >= 1 {
+					inc = true
+				}
+			}
+		}
+	}
+	return zero && inc
+}
+
+// isOctetBudget: an int phi that starts at the constant 255.
+func isOctetBudget(phi *ssa.Phi) bool {
+	for _, e := range phi.Edges {
+		if k, ok := constIntOf(e); ok && k == 255 {
+			return true
+		}
+	}
+	return false
 }
